@@ -76,7 +76,9 @@ def encode (env : Env) : Nat → Ty → Val → Builder → Outcome Builder
       | .cell c => .ok (Builder.ofCell c)      -- encodeCell: `*c = o.(boc.Cell)`
       | _ => .err "bad value")
     | .ptr m t => (match v with
-      | .none => if m then .panic "nil pointer dereference" else .err "can't encode empty pointer"
+      -- a nil pointer: an error, also for a pointer to a MarshalerTLB type (after the `fix:`; before it the value
+      -- method was called through the nil pointer: a panic)
+      | .none => .err "can't encode empty pointer"
       | .cons x .nil => encode env fuel t x b
       | _ => .err "bad value")
     | .struct fs => encodeFields env fuel fs v b
